@@ -195,7 +195,10 @@ def run(rep, idx, tier):
     else:
         subj = c.parse("MODE.f.pin[n].data", env)
         sws = [sid for sid, s in c.t.switches.items() if c.norm(s) == subj]
-        if len(sws) != 1:
+        if len(sws) != 1 and any(x[0] == 'opaque' for s in c.t.switches.values() for x in ir.walk(c.norm(s))):
+            rep.unk("C16.2", site, "Switch on the pin's mode field", "a Switch decodes an intermediate wire whose width is not verified "
+                    f"against the mode field: {[ir.show(c.norm(s))[:80] for s in c.t.switches.values()]}")
+        elif len(sws) != 1:
             rep.bad("C16.2", site, "Switch on the pin's mode field", f"found {len(sws)} Switch statements on {ir.show(subj)}")
         else:
             sid = sws[0]
